@@ -47,6 +47,10 @@ pub struct Case {
     pub c: Corruption,
     pub file: bool,
     pub ts: bool,
+    /// well-formed sources handed to the compiler BEFORE the corrupted one: bit 0 a file, bit 1 a
+    /// literal (the reported position and path must still be those of the corrupted source)
+    #[serde(default)]
+    pub pre: u8,
 }
 
 #[derive(Clone, Debug, Serialize, Deserialize, PartialEq)]
@@ -207,25 +211,25 @@ impl Scenario for C17Corrupt {
         if small && strict.len() <= 400 {
             // exhaustive over strict positions; the fault byte and delivery rotate
             for (k, at) in strict.iter().enumerate() {
-                cases.push(Case { c: Corruption::Replace { at: *at, byte: BAD_BYTES[(k + idx as usize) % BAD_BYTES.len()] }, file: k % 3 == 0, ts: k % 7 == 0 });
+                cases.push(Case { c: Corruption::Replace { at: *at, byte: BAD_BYTES[(k + idx as usize) % BAD_BYTES.len()] }, file: k % 3 == 0, ts: k % 7 == 0, pre: 0 });
             }
         } else {
             for _ in 0..budget {
                 let at = *f.pick(&strict);
-                cases.push(Case { c: Corruption::Replace { at, byte: *f.pick(&BAD_BYTES) }, file: f.chance(1, 3), ts: f.chance(1, 6) });
+                cases.push(Case { c: Corruption::Replace { at, byte: *f.pick(&BAD_BYTES) }, file: f.chance(1, 3), ts: f.chance(1, 6), pre: 0 });
             }
         }
         // every unit gets at least one corruption at its first and last strict byte
         for u in &units {
             let inside: Vec<usize> = strict.iter().copied().filter(|p| *p >= u.start && *p < u.end).collect();
             if let (Some(a), Some(b)) = (inside.first(), inside.last()) {
-                cases.push(Case { c: Corruption::Replace { at: *a, byte: *f.pick(&BAD_BYTES) }, file: f.chance(1, 2), ts: false });
-                cases.push(Case { c: Corruption::Replace { at: *b, byte: *f.pick(&BAD_BYTES) }, file: f.chance(1, 2), ts: false });
+                cases.push(Case { c: Corruption::Replace { at: *a, byte: *f.pick(&BAD_BYTES) }, file: f.chance(1, 2), ts: false, pre: 0 });
+                cases.push(Case { c: Corruption::Replace { at: *b, byte: *f.pick(&BAD_BYTES) }, file: f.chance(1, 2), ts: false, pre: 0 });
             }
         }
         for _ in 0..4 {
             let at = *f.pick(&strict);
-            cases.push(Case { c: Corruption::SectorZero { at }, file: f.chance(1, 2), ts: false });
+            cases.push(Case { c: Corruption::SectorZero { at }, file: f.chance(1, 2), ts: false, pre: 0 });
             // truncation inside an assignment
             let asg: Vec<&Unit> = units.iter().filter(|u| u.kind == "assignment" && u.end > u.start + 2).collect();
             if !asg.is_empty() {
@@ -234,7 +238,7 @@ impl Scenario for C17Corrupt {
                 while !text.is_char_boundary(at) {
                     at -= 1;
                 }
-                cases.push(Case { c: Corruption::Truncate { at }, file: f.chance(1, 2), ts: false });
+                cases.push(Case { c: Corruption::Truncate { at }, file: f.chance(1, 2), ts: false, pre: 0 });
             }
         }
         // block comments whose terminator is damaged
@@ -257,7 +261,7 @@ impl Scenario for C17Corrupt {
                     break;
                 }
                 let (e, from) = *f.pick(&ends);
-                cases.push(Case { c: Corruption::BreakCommentEnd { at: e + f.below(2), from }, file: f.chance(1, 2), ts: false });
+                cases.push(Case { c: Corruption::BreakCommentEnd { at: e + f.below(2), from }, file: f.chance(1, 2), ts: false, pre: 0 });
             }
         }
         // truncation inside module headers: right after an identifier of the header, the EXPORTS
@@ -274,7 +278,7 @@ impl Scenario for C17Corrupt {
             }).collect();
             let at = if !ends.is_empty() && f.chance(2, 3) { *f.pick(&ends) } else { u.start + 1 + f.below(u.end - u.start - 1) };
             if text.is_char_boundary(at) {
-                cases.push(Case { c: Corruption::TruncateAtBoundary { at }, file: f.chance(1, 2), ts: false });
+                cases.push(Case { c: Corruption::TruncateAtBoundary { at }, file: f.chance(1, 2), ts: false, pre: 0 });
             }
         }
         // truncation exactly at unit boundaries: after a complete assignment, after its line break,
@@ -292,7 +296,14 @@ impl Scenario for C17Corrupt {
                 _ => u.start,
             };
             if text.is_char_boundary(at) {
-                cases.push(Case { c: Corruption::TruncateAtBoundary { at }, file: f.chance(1, 2), ts: false });
+                cases.push(Case { c: Corruption::TruncateAtBoundary { at }, file: f.chance(1, 2), ts: false, pre: 0 });
+            }
+        }
+        // a third of the corrupted LITERAL sources come after one or two well-formed sources
+        let mut fp = root.fork("pre-sources");
+        for c in cases.iter_mut() {
+            if !c.file && fp.chance(1, 3) {
+                c.pre = 1 + fp.below(3) as u8;
             }
         }
         serde_json::to_value(&Plan { seed, set, cases, entropy: root.fork("hashkeys").next_u64() }).unwrap()
@@ -321,7 +332,17 @@ impl Scenario for C17Corrupt {
                 std::fs::write(&path, &text).unwrap();
                 vec![Src::Path(path.clone())]
             } else {
-                vec![Src::Literal(ctext.clone())]
+                let mut v = vec![];
+                if case.pre & 1 != 0 {
+                    let pre_path = format!("{root}/pre{ci}.asn1");
+                    std::fs::write(&pre_path, format!("Pre-File-{ci} DEFINITIONS AUTOMATIC TAGS ::= BEGIN\n  PreFileType{ci} ::= BOOLEAN\nEND\n")).unwrap();
+                    v.push(Src::Path(pre_path));
+                }
+                if case.pre & 2 != 0 {
+                    v.push(Src::Literal(format!("Pre-Lit-{ci} DEFINITIONS ::= BEGIN\n\n  PreLitType{ci} ::= INTEGER (0..7)\nEND\n")));
+                }
+                v.push(Src::Literal(ctext.clone()));
+                v
             };
             let mut cfg = SimCfg::simple(p.seed ^ ci as u64);
             cfg.entropy = p.entropy.wrapping_add(ci as u64);
@@ -339,6 +360,10 @@ impl Scenario for C17Corrupt {
             let (mut results, rep) = sim::run_sim(&cfg, None, root, vec![body]);
             out.steps += rep.sched.steps + rep.events.len() as u64;
             let _ = std::fs::remove_file(&path);
+            let _ = std::fs::remove_file(format!("{root}/pre{ci}.asn1"));
+            if case.pre != 0 {
+                out.count("delivery.after_wellformed_sources", 1);
+            }
             if rep.unmodelled > 0 || rep.overflow {
                 out.harness_error = Some(format!("shim: {} un-modelled calls, overflow={}", rep.unmodelled, rep.overflow));
             }
@@ -429,6 +454,24 @@ impl Scenario for C17Corrupt {
                     }
                     if flagged.is_none() {
                         out.count("probe.no_line_flagged_by_contextualize", 1);
+                        // contextualize leaves blank rows out; a reported line that holds anything
+                        // else (notation after a closed `-- .. --` comment included) must be shown
+                        // and marked
+                        // (the excerpt starts at context_start_offset: only the part of the reported
+                        // line from there on can be shown — nothing at all for an error at the very
+                        // end of the input)
+                        let line_start = ctext[..r.offset].rfind('\n').map_or(0, |i| i + 1);
+                        let from = line_start.max(r.context_start_offset.min(ctext.len()));
+                        let line_end = ctext[r.offset..].find('\n').map_or(ctext.len(), |i| r.offset + i);
+                        // (and the excerpt may be no more than the first 300 bytes of the context)
+                        let mut upto = line_end.min(r.context_start_offset.saturating_add(296)).min(ctext.len());
+                        while !ctext.is_char_boundary(upto) {
+                            upto -= 1;
+                        }
+                        let actual = if from < upto && ctext.is_char_boundary(from) { &ctext[from..upto] } else { "" };
+                        if !actual.trim().is_empty() {
+                            out.violate("renderings-agree", format!("contextualize marks no row although the reported line {} is not blank: `{}`; {ctx}", r.line, crate::core::truncate(actual.trim_end(), 120)));
+                        }
                     }
                     // the row that carries the marker shows the text of that very line
                     if let Some(row) = rend.contextualized.lines().find(|l| l.contains("FAILED AT THIS LINE")) {
@@ -444,10 +487,10 @@ impl Scenario for C17Corrupt {
                     if case.file {
                         let want = path.clone();
                         if r.src_file.as_deref() != Some(want.as_str()) || dpath.as_deref() != Some(want.as_str()) || hpath.as_deref() != Some(want.as_str()) {
-                            out.violate("path-reported", format!("source given by path {} but src_file={:?}, Display path={:?}, contextualize path={:?}; {ctx}", want.replace(root, "<ROOT>"), r.src_file, dpath, hpath));
+                            out.violate("path-reported", format!("source given by path {} but src_file={:?}, Display path={:?}, contextualize path={:?}; {ctx}", want.replace(root, "<ROOT>"), r.src_file.as_ref().map(|f| f.replace(root, "<ROOT>")), dpath.as_ref().map(|f| f.replace(root, "<ROOT>")), hpath.as_ref().map(|f| f.replace(root, "<ROOT>"))));
                         }
                     } else if r.src_file.is_some() || dpath.is_some() || hpath.is_some() {
-                        out.violate("path-reported", format!("literal source but a path is reported (src_file={:?}); {ctx}", r.src_file));
+                        out.violate("path-reported", format!("literal source but a path is reported (src_file={:?}); {ctx}", r.src_file.as_ref().map(|f| f.replace(root, "<ROOT>"))));
                     }
                 }
                 _ => out.violate("renderings-agree", format!("cannot find a line number in Display `{}` or contextualize output; {ctx}", rend.display)),
